@@ -34,7 +34,7 @@ impl AdaptiveFeeConstants {
         && self.max_volatility_accumulator as int * self.tick_group_size as int <= 0xFFFF_FFFF && self.reduction_factor < 10_000
         && self.tick_group_size >= 1 && self.major_swap_threshold_ticks >= 1
     }
-//@ fn state/oracle.rs validate_constants in=/^impl AdaptiveFeeConstants \{/ -> r
+//@ fn state/oracle.rs validate_constants in=/^impl AdaptiveFeeConstants \{/ -> r canary
     ensures r == valid_constants(tick_spacing as int, filter_period as int, decay_period as int, reduction_factor as int, adaptive_fee_control_factor as int,
             max_volatility_accumulator as int, tick_group_size as int, major_swap_threshold_ticks as int),
 //@ inject at /^\{/
@@ -81,7 +81,7 @@ pub open spec fn accumulator_at(v: AdaptiveFeeVariables, g: int, c: AdaptiveFeeC
     min_i(v.volatility_reference as int + abs_diff(v.tick_group_index_reference as int, g) * 10_000, c.max_volatility_accumulator as int)
 }
 impl AdaptiveFeeVariables {
-//@ fn state/oracle.rs update_volatility_accumulator in=/^impl AdaptiveFeeVariables \{/ -> r
+//@ fn state/oracle.rs update_volatility_accumulator in=/^impl AdaptiveFeeVariables \{/ -> r canary
     requires -GROUP_BOUND() <= tick_group_index <= GROUP_BOUND(), -GROUP_BOUND() <= old(self).tick_group_index_reference <= GROUP_BOUND(),
     ensures r is Ok,
         // accumulator = min(reference + |group distance| * 10_000, max); nothing else changes
@@ -91,7 +91,7 @@ impl AdaptiveFeeVariables {
         *final(self) == (AdaptiveFeeVariables { volatility_accumulator: final(self).volatility_accumulator, ..*old(self) }),
 //@ end
 
-//@ fn state/oracle.rs update_reference in=/^impl AdaptiveFeeVariables \{/ -> r
+//@ fn state/oracle.rs update_reference in=/^impl AdaptiveFeeVariables \{/ -> r canary
     requires adaptive_fee_constants.reduction_factor < 10_000,
     ensures
         match reference_after(*old(self), tick_group_index, current_timestamp, *adaptive_fee_constants) {
